@@ -152,7 +152,7 @@ func (o *ob) fline(p *sipsp.PFLine) {
 func (o *ob) from(p *sipsp.PFromBody) {
 	if p == nil {
 		o.sep()
-		o.b = append(o.b, `"null"`...)
+		o.b = append(o.b, `{"nil":true}`...)
 		return
 	}
 	o.open('{')
@@ -204,7 +204,7 @@ func (o *ob) contacts(c *sipsp.PContacts) {
 	if c.N > 0 {
 		o.from(c.GetContact(c.N - 1))
 	} else {
-		o.b = append(o.b, `"null"`...)
+		o.b = append(o.b, `{"nil":true}`...)
 	}
 	o.close('}')
 }
@@ -227,7 +227,7 @@ func (o *ob) pais(c *sipsp.PPAIs) {
 func (o *ob) hdr(h *sipsp.Hdr) {
 	if h == nil {
 		o.sep()
-		o.b = append(o.b, `"null"`...)
+		o.b = append(o.b, `{"nil":true}`...)
 		return
 	}
 	o.open('{')
